@@ -41,24 +41,56 @@ def build_targets():
     import productmd.rpms as rp
     import productmd.treeinfo as ti
     import productmd.discinfo as di
-    T = {}
-    T["is_valid_release_short"] = c.is_valid_release_short
-    T["is_valid_release_version"] = c.is_valid_release_version
-    T["is_valid_release_type"] = c.is_valid_release_type
+    class Targets(dict):
+        """Targets whose construction fails (renamed / removed API) are skipped, not fatal."""
+    T = Targets()
+    try:
+        T["is_valid_release_short"] = c.is_valid_release_short
+    except AttributeError:
+        pass
+    try:
+        T["is_valid_release_version"] = c.is_valid_release_version
+    except AttributeError:
+        pass
+    try:
+        T["is_valid_release_type"] = c.is_valid_release_type
+    except AttributeError:
+        pass
     T["create_release_id:short"] = lambda s: c.create_release_id(s, "1", "ga")
     T["create_release_id:version"] = lambda s: c.create_release_id("f", s, "ga")
     T["create_release_id:type"] = lambda s: c.create_release_id("f", "1", s)
     T["create_release_id:bp_short"] = lambda s: c.create_release_id("f", "1", "ga", s, "1", "ga")
-    T["parse_release_id"] = c.parse_release_id
-    T["parse_nvra"] = c.parse_nvra
-    T["split_version"] = c.split_version
-    T["get_major_version"] = c.get_major_version
+    try:
+        T["parse_release_id"] = c.parse_release_id
+    except AttributeError:
+        pass
+    try:
+        T["parse_nvra"] = c.parse_nvra
+    except AttributeError:
+        pass
+    try:
+        T["split_version"] = c.split_version
+    except AttributeError:
+        pass
+    try:
+        T["get_major_version"] = c.get_major_version
+    except AttributeError:
+        pass
     T["Rpms.add:nevra"] = lambda s: rp.Rpms().add("V", "x86_64", s, "p", None, "binary", "a-0:1-1.src")
     T["Rpms.add:srpm_nevra"] = lambda s: rp.Rpms().add("V", "x86_64", "a-0:1-1.x86_64", "p", None, "binary", s)
-    T["Modules.parse_uid"] = mo.Modules.parse_uid
+    try:
+        T["Modules.parse_uid"] = mo.Modules.parse_uid
+    except AttributeError:
+        pass
     T["Modules.add:uid"] = lambda s: mo.Modules().add("V", "x86_64", s, "tag", "p", "binary", [])
-    T["verify_label"] = ci.verify_label
-    T["get_date_type_respin"] = ci.get_date_type_respin
+    try:
+        T["verify_label"] = ci.verify_label
+    except AttributeError:
+        pass
+    try:
+        T["get_date_type_respin"] = ci.get_date_type_respin
+    except AttributeError:
+        pass
 
     def field(cls_factory, attr, method):
         def run(s):
